@@ -385,7 +385,12 @@ theorem quiet_prop_pause (c : Cfg) : ∀ (f : Nat),
     (∀ w x, Quiet w (prop c f .belowP w x).1) := by
   intro f
   induction f with
-  | zero => exact ⟨fun w x => Quiet.refl w, fun w x e _ _ => Quiet.refl w, fun w x => Quiet.refl w⟩
+  | zero =>
+    refine ⟨fun w x => Quiet.refl w, fun w x e he _ => ?_, fun w x => Quiet.refl w⟩
+    simp only [prop, updateLocal, he]
+    split
+    · exact Quiet.refl w
+    · exact quiet_taskUpdate w _ _
   | succ f ih =>
     obtain ⟨ih1, ih2, ih3⟩ := ih
     refine ⟨?_, ?_, fun w x => by
